@@ -569,6 +569,39 @@ def uapi_from_headers():
     return out
 
 
+def run_tableless(ctx):
+    """Builds harness/tableless for js/wasm and linux/386 against the repository and runs both.
+    Returns dict(wasm=[(i, result)], control=[...]) or dict(skipped=reason)."""
+    import shutil
+    goroot = subprocess.run(["go", "env", "GOROOT"], capture_output=True, text=True, env=GOENV).stdout.strip()
+    helper = os.path.join(goroot, "lib", "wasm", "go_js_wasm_exec")
+    if not os.path.exists(helper):
+        helper = os.path.join(goroot, "misc", "wasm", "go_js_wasm_exec")
+    if not os.path.exists(helper) or not shutil.which("node"):
+        return dict(skipped="node or go_js_wasm_exec is not available")
+    d = os.path.join(ctx.scratch, "tableless")
+    os.makedirs(d, exist_ok=True)
+    shutil.copy(os.path.join(VERIF, "harness", "tableless", "main.go"), d)
+    with open(os.path.join(VERIF, "harness", "go.mod.tmpl")) as f:
+        mod = f.read().replace("@REPO@", REPO).replace("module verif/harness", "module verif/tableless")
+    with open(os.path.join(d, "go.mod"), "w") as f:
+        f.write(mod)
+    shutil.copy(os.path.join(REPO, "go.sum"), d)
+    out = {}
+    for key, env, runner in (("wasm", dict(GOENV, GOOS="js", GOARCH="wasm"), [helper]), ("control", dict(GOENV, GOOS="linux", GOARCH="386", CGO_ENABLED="0"), [])):
+        exe = os.path.join(d, "tableless-" + key)
+        r = subprocess.run(["go", "build", "-o", exe, "."], cwd=d, env=env, capture_output=True, text=True, timeout=600)
+        if r.returncode != 0:
+            return dict(skipped="harness/tableless does not build for %s: %s" % (key, (r.stdout + r.stderr)[-400:]))
+        r = subprocess.run(runner + [exe], cwd=d, env=dict(env, PATH=os.environ.get("PATH", "")), capture_output=True, text=True, timeout=300)
+        lines = [ln.split(" ", 2) for ln in r.stdout.splitlines() if ln.startswith("T ")]
+        n = [ln for ln in r.stdout.splitlines() if ln.startswith("N ")]
+        if r.returncode != 0 or not n or int(n[0].split()[1]) != len(lines):
+            return dict(skipped="harness/tableless (%s) did not run to the end: rc %d %s" % (key, r.returncode, r.stderr[-300:]))
+        out[key] = [(int(f[1]), f[2]) for f in lines]
+    return out
+
+
 def check_C19(ctx, replay=None):
     gen, ok = setup(ctx, "C19.v", C19_THEOREMS)
     if not ok:
@@ -589,10 +622,11 @@ def check_C19(ctx, replay=None):
     targets = []
     if gen:
         text = open(os.path.join(gen, "GenConsts.v")).read()
-        for m in re.finditer(r'\{\| tc_goos := "(\w+)"%string; tc_goarch := "(\w+)"%string; tc_checks := (true|false);(.*?)tc_funcs := \[(.*?)\];\s*tc_files := \[(.*?)\] \|\}', text, re.S):
+        for m in re.finditer(r'\{\| tc_goos := "(\w+)"%string; tc_goarch := "(\w+)"%string; tc_checks := (true|false);(.*?)tc_funcs := \[(.*?)\];\s*tc_files := \[(.*?)\];\s*tc_bodies := \[(.*?)\] \|\}', text, re.S):
             vals = {k: int(v) for k, v in re.findall(r"tc_(\w+) := (\d+)", m.group(4))}
             targets.append(dict(goos=m.group(1), goarch=m.group(2), checks=m.group(3) == "true", vals=vals,
-                                funcs=re.findall(r'"(\w+)"', m.group(5)), files=re.findall(r'"([\w.]+)"', m.group(6))))
+                                funcs=re.findall(r'"(\w+)"', m.group(5)), files=re.findall(r'"([\w.]+)"', m.group(6)),
+                                bodies={b[0]: (int(b[1]), b[2]) for b in re.findall(r'\("(\w+)"%string, (\d+)%nat, "([^"]*)"%string\)', m.group(7))}))
     # direct search over every target, against the property text
     for t in targets:
         tname = "%s/%s" % (t["goos"], t["goarch"])
@@ -608,14 +642,25 @@ def check_C19(ctx, replay=None):
             bad("ENOSYS differs from the kernel's value for this CPU", target=tname, expected=want_enosys, actual=t["vals"].get("errnoENOSYS"))
         if linux != ("seccomp_linux.go" in t["files"]) or linux == ("seccomp_unsupported.go" in t["files"]):
             bad("wrong loader file selected for this target", target=tname, files=t["files"])
-    # the stubs: no call expression, Supported false
-    if gen:
-        stext = open(os.path.join(gen, "GenStubs.v")).read()
-        for m in re.finditer(r'\("(\w+)"%string, (\d+), (\d+), "(\w+)"%string\)', stext):
-            if int(m.group(2)) != 0:
-                bad("a non-Linux stub performs calls", function=m.group(1), calls=int(m.group(2)))
-            if m.group(1) == "Supported" and m.group(4) != "false":
-                bad("the non-Linux Supported stub does not report false", returns=m.group(4))
+    # the stubs, in the package as built for each non-Linux target: no call expression, Supported false; and the layout
+    # of seccomp_data (argument offset 16, 8-byte arguments, 4-byte words) is the same on every target
+    for t in targets:
+        tname = "%s/%s" % (t["goos"], t["goarch"])
+        if not t["checks"]:
+            continue
+        if t["goos"] not in ("linux", "android"):
+            for fn in ("Supported", "SetNoNewPrivs", "LoadFilter"):
+                b = t["bodies"].get(fn)
+                if b is None:
+                    bad("a loader function is missing from the package built for this non-Linux target", target=tname, function=fn)
+                elif b[0] != 0:
+                    bad("on a non-Linux target a loader function performs calls instead of being an inert stub", target=tname, function=fn, call_expressions=b[0])
+                elif fn == "Supported" and b[1] != "false":
+                    bad("the Supported stub of a non-Linux target does not report false", target=tname, returns=b[1])
+        for k, want in (("argumentOffset", 16), ("sizeOfUint64", 8), ("sizeOfUint32", 4)):
+            if k in t["vals"] and t["vals"][k] != want:
+                bad("the layout of seccomp_data differs on this target (a policy with argument conditions compiles to another program here)",
+                    target=tname, constant=k, expected=want, actual=t["vals"][k])
     # targets without syscall tables: the lookup Policy.Assemble performs (arch.GetInfo of the GOARCH) must fail
     goarches = sorted(set(t["goarch"] for t in targets))
     if goarches:
@@ -628,6 +673,21 @@ def check_C19(ctx, replay=None):
                     goarch=g, input_hex=g.encode().hex(), resolves_to=f[2] if len(f) > 2 else None)
             if g in ("386", "amd64", "arm", "arm64") and f[1] != "OK":
                 bad("a GOARCH with a syscall table does not resolve", goarch=g, input_hex=g.encode().hex())
+    # ... and the compilation itself, RUN on a target without tables: js/wasm executed by node (the only table-less
+    # target this host can run), with 386 as the control where the same policies must compile
+    tl = run_tableless(ctx)
+    if tl.get("skipped"):
+        ctx.notes.append("table-less run-time step skipped: " + tl["skipped"])
+    else:
+        for (i, res) in tl["wasm"]:
+            if res != "ERR":
+                bad("on a target without syscall tables (js/wasm, run with node) Policy.Assemble does not fail with an error: policy #%d of harness/tableless gives %s" % (i, res),
+                    target="js/wasm", policy_index=i, result=res)
+                break
+        for (i, res) in tl["control"]:
+            if not res.startswith("OK"):
+                bad("the control build (linux/386) does not compile policy #%d of harness/tableless: %s" % (i, res), target="linux/386", policy_index=i, result=res)
+                break
     # translator cross-check: the running (host) build's constants vs the regenerated record of the host target
     r = ctx.run_harness(["consts"], "")
     host = {}
@@ -677,8 +737,8 @@ def check_C19(ctx, replay=None):
                 bad("the module does not build (or vet) for this target", target="%s/%s" % ga, log=err)
     ctx.coverage.update(dict(
         evaluations=len(targets) * (len(UAPI) + 3) + built, distinct_nontrivial=len(targets),
-        rule="every GOOS/GOARCH pair of `go tool dist list` (%d): package seccomp type-checked under that build context by the translator, its constants as go/constant evaluates them compared with the kernel UAPI values (vendored, and re-read from /usr/include when present), loader file selection and stub bodies inspected; go build for %s; the running build's constants compared with the regenerated host record; non-trivial = targets judged" % (len(targets), "six representative targets" if q else "every target (plus go vet)"),
-        traces_validated_against_impl=ncorr, targets_built=built - len(skipped), targets_not_buildable_without_cgo=skipped, counterexamples=nbad, exhaustive=True,
+        rule="every GOOS/GOARCH pair of `go tool dist list` (%d): package seccomp type-checked under that build context by the translator, its constants as go/constant evaluates them compared with the kernel UAPI values (vendored, and re-read from /usr/include when present), loader file selection and stub bodies inspected; go build for %s; the running build's constants compared with the regenerated host record; 84 policies (empty groups, names, conditions, every default action) compiled through the public API in a js/wasm build run by node (every one must fail) and in a 386 build (every one must compile); non-trivial = targets judged" % (len(targets), "six representative targets" if q else "every target (plus go vet)"),
+        traces_validated_against_impl=ncorr, tableless_runtime=dict(skipped=tl.get("skipped")) if tl.get("skipped") else dict(js_wasm_policies=len(tl["wasm"]), control_386_policies=len(tl["control"])), targets_built=built - len(skipped), targets_not_buildable_without_cgo=skipped, counterexamples=nbad, exhaustive=True,
         input_distribution=dict(targets=len(targets), linux=sum(1 for t in targets if t["goos"] in ("linux", "android")),
                                 with_tables=sum(1 for t in targets if t["goarch"] in ("386", "amd64", "arm", "arm64")),
                                 enosys_values=sorted(set(t["vals"].get("errnoENOSYS") for t in targets))),
